@@ -47,6 +47,8 @@ func (e eagrEv) String() string {
 		return fmt.Sprintf("%s(n%d @%dms)", e.K, e.N, e.T/1e6)
 	case "tick":
 		return fmt.Sprintf("tick(nodes %03b)", e.Idx)
+	case "vtick":
+		return "vtick"
 	}
 	return fmt.Sprintf("%s(n%d)", e.K, e.N)
 }
@@ -98,6 +100,18 @@ func (s *eagrSys) apply(e eagrEv, out *eagrOut) error {
 	if e.N < 0 || e.N >= len(s.nodes) {
 		return fmt.Errorf("bad node %d", e.N)
 	}
+	if s.cfg.virtualTime {
+		before := s.devs.total()
+		defer func() {
+			if s.devs.total() != before {
+				for _, n := range s.nodes {
+					if !n.passive && int(n.p.Period) > s.syncPeriod {
+						s.syncPeriod = int(n.p.Period)
+					}
+				}
+			}
+		}()
+	}
 	switch e.K {
 	case "deliver", "dup", "drop", "hold", "reorder":
 		i := s.findFlight(e.N, e.M)
@@ -143,6 +157,40 @@ func (s *eagrSys) apply(e eagrEv, out *eagrOut) error {
 			s.devs[eagrDevFast]++
 		}
 		s.own(e.N).timeout(s, e.K == "fast", out)
+	case "vtick": // virtual-time tick: advance to the earliest deadline and fire every timer due then
+		var T int64 = -1
+		for _, n := range s.nodes {
+			if n.passive {
+				continue
+			}
+			r, f := n.timers()
+			for _, x := range []int64{r, f} {
+				if T < 0 || x < T {
+					T = x
+				}
+			}
+		}
+		if T < 0 {
+			return fmt.Errorf("vtick: no active node")
+		}
+		if T > s.now {
+			s.now = T
+		}
+		s.unpark()
+		for j := range s.nodes {
+			if s.nodes[j].passive {
+				continue
+			}
+			if r, _ := s.nodes[j].timers(); r <= s.now {
+				s.own(j).timeout(s, false, out)
+			}
+			if s.nodes[j].passive {
+				continue
+			}
+			if _, f := s.nodes[j].timers(); f <= s.now {
+				s.own(j).timeout(s, true, out)
+			}
+		}
 	case "tick": // lock-step explorer: the nodes in mask Idx take their timeout, in node order
 		if e.S != 0 {
 			s.devs[eagrDevSkew]++
@@ -322,6 +370,7 @@ type eagrBFS struct {
 	lockstep bool
 	budget   eagrDevs
 	maxDevs  int
+	devPeriods int  // >0: deviations only while every node's period is below this (C05: asynchronous prefix)
 	byzAccts []int  // adversary accounts
 	byzNodes []int  // nodes the adversary may send to (nil: all)
 	byzSteps []step // steps the adversary votes in (nil: soft, cert, next)
@@ -378,7 +427,16 @@ func (b *eagrBFS) enabled(s *eagrSys) []eagrEv {
 		crashes += n.crashes
 	}
 	if b.lockstep {
+		maxP := 0
+		for _, n := range s.nodes {
+			if !n.passive && int(n.p.Period) > maxP {
+				maxP = int(n.p.Period)
+			}
+		}
 		can := func(kind int) bool {
+			if b.devPeriods > 0 && maxP >= b.devPeriods {
+				return false // deviations are confined to the first devPeriods periods (asynchronous prefix)
+			}
 			return int(s.devs[kind]) < int(b.budget[kind]) && (b.maxDevs < 0 || s.devs.total() < b.maxDevs)
 		}
 		crashEvs := func() {
@@ -460,6 +518,29 @@ func (b *eagrBFS) enabled(s *eagrSys) []eagrEv {
 			}
 			crashEvs()
 			byzEvs()
+			return evs
+		}
+		if b.cfg.virtualTime {
+			// nothing left to deliver: the ledger of a node whose next round was committed elsewhere
+			// fetches the block (catch-up service / EnsureDigest), which interrupts the round
+			for j, n := range s.nodes {
+				if n.passive {
+					continue
+				}
+				for _, o := range s.nodes {
+					if _, ok := o.led.entries[n.led.next]; ok && o != n {
+						return append(evs, eagrEv{K: "catchup", N: j})
+					}
+				}
+			}
+			active := false
+			for _, n := range s.nodes {
+				active = active || !n.passive
+			}
+			if active {
+				evs = append(evs, eagrEv{K: "vtick"})
+			}
+			crashEvs()
 			return evs
 		}
 		mask := 0
@@ -1115,4 +1196,15 @@ func eagrSafetyConfigs(scale int) []*eagrBFS {
 	async.switchAt = 1 << 30
 	async.maxDepth = []int{4, 6, 7}[scale]
 	return append(cfgs, async)
+}
+
+type eagrAtomicMax struct{ v atomic.Int64 }
+
+func (m *eagrAtomicMax) update(x int64) {
+	for {
+		old := m.v.Load()
+		if x <= old || m.v.CompareAndSwap(old, x) {
+			return
+		}
+	}
 }
